@@ -13,6 +13,7 @@ CHECKS = {
     "C03": "pprops",
     "C04": "pprops",
     "C05": "pprops",
+    "C12": "pprops",
     "C13": "pprops",
     "C07": "c07",
     "C08": "c08",
